@@ -10,12 +10,22 @@ REPLAYS = os.path.join(ROOT, "replays")
 KNOWN = os.path.join(ROOT, "known_findings.json")
 
 
-def load_keys():
+def load_keys(seed=1):
+    """the fixed test keys plus a seed-determined pool of further signers (random secrets of both schemes and the
+    small scalars whose public keys have unusual x coordinates), so that key-dependent behaviour is exercised"""
     p = subprocess.run([run.ENRH, "keys"], stdout=subprocess.PIPE, text=True)
     if p.returncode != 0:
         raise ToolError("enrh keys failed")
     k = json.loads(p.stdout)
+    rng = random.Random(seed * 7919 + 13)
+    extra = ["k:%064x" % rng.randrange(1, 2 ** 255) for _ in range(6)] + ["e:%064x" % rng.randrange(0, 2 ** 256) for _ in range(3)]
+    extra += ["k:" + h for h in k.get("special_x", {}).values()]
+    p = subprocess.run([run.ENRH, "keys"] + extra, stdout=subprocess.PIPE, text=True)
+    if p.returncode != 0:
+        raise ToolError("enrh keys failed")
+    k = json.loads(p.stdout)
     gen.set_keys(k)
+    gen.set_pool([n for n in extra if n in k])
     return k
 
 
@@ -167,7 +177,7 @@ def run_check(pid, tier, seed, keep=False):
     if os.path.exists(evid_path):
         os.remove(evid_path)
     run.build_harness()
-    load_keys()
+    load_keys(seed)
     spec = CHECKS[pid]
     wd = run.workdir("%s-%s-%d" % (pid, tier, os.getpid()))
     rng = random.Random((seed * 1000003) ^ int(hashlib.sha256(pid.encode()).hexdigest()[:8], 16))
